@@ -125,6 +125,35 @@ def shape_features(tree):
     return f
 
 
+def ir_features(ir):
+    f = shape_features(ir["tree"])
+    if len(stage_bounds(ir)) > 1 and ir.get("eval_between"):
+        f.add("extended_after_evaluation")
+    return f
+
+
+def stage_bounds(ir):
+    """[(lo, hi)] index ranges of the base block's children written per `with query:` block"""
+    n = len(ir["tree"]["children"])
+    sizes = [k for k in (ir.get("stages") or []) if k > 0]
+    out, lo = [], 0
+    for k in sizes:
+        if lo + k >= n:
+            break
+        out.append((lo, lo + k))
+        lo += k
+    out.append((lo, n))
+    return out
+
+
+def partial_ir(ir, n_children, with_base_conclusion):
+    """the rule tree as written after some of the blocks"""
+    tree = dict(ir["tree"], children=ir["tree"]["children"][:n_children])
+    if not with_base_conclusion:
+        tree["args"] = None
+    return dict(ir, tree=tree)
+
+
 class C08(Check):
     id = "C08"
     title = "Rule trees follow except-if / else-if / also-if semantics"
@@ -137,7 +166,9 @@ class C08(Check):
         "parent, recursively; alternative = next else-if of the chain its block belongs to, in written order; "
         "next_rule = in addition); where several sibling refinements hold any one is accepted (lower/upper "
         "bound). The set {(K_i, identities of the constructor arguments)} must match the instances returned by "
-        "evaluate(), and a second evaluate() of the same rule query must return the same set. Non-trivial: at "
+        "evaluate(), and a second evaluate() of the same rule query must return the same set. A third of the trees "
+        "with >= 2 top-level branches is written in several `with query:` blocks (the base conclusion in the first or "
+        "the last one), optionally evaluated after each block against the oracle of the tree written so far. Non-trivial: at "
         "least two different branches fire for different assignments and some branch is overridden or skipped. "
         "Distinct = distinct IR."
     )
@@ -211,12 +242,18 @@ class C08(Check):
                 return {"conds": conds, "args": args if has_concl else None, "children": children}
 
             tree = block("base", 0, scope, True)
-            return {"world": world, "vars": ctx.vars, "tree": tree}
+            out = {"world": world, "vars": ctx.vars, "tree": tree}
+            if len(tree["children"]) >= 2 and draw(st.sampled_from([0, 0, 1])):
+                # the tree is written in several `with query:` blocks, possibly evaluated in between
+                out["stages"] = draw(st.lists(st.integers(1, 2), min_size=1, max_size=2))
+                out["late_add"] = draw(st.booleans()) and tree["args"] is not None
+                out["eval_between"] = draw(st.booleans()) and "extended_after_evaluation" not in ex
+            return out
 
         return ir()
 
     def static_features(self, ir):
-        return shape_features(ir["tree"])
+        return ir_features(ir)
 
     # ------------------------------------------------------------------------------------------
     def oracle(self, ir, objs):
@@ -296,8 +333,11 @@ class C08(Check):
         return lower, upper, overridden[0]
 
     # ------------------------------------------------------------------------------------------
-    def build(self, ir, objs):
-        """returns (rule query, decode(instance) -> (branch index, argument labels))"""
+    def build(self, ir, objs, on_stage=None):
+        """returns (rule query, decode(instance) -> (branch index, argument labels)).
+        ir["stages"] (optional): sizes of the groups of the base block's children that are written in separate
+        `with query:` blocks; ir["late_add"]: the base conclusion is written in the last block instead of the first.
+        on_stage(query, decode, n_children_written, base_conclusion_written) is called after every block."""
         from krrood.entity_query_language.conclusion import Add
         from krrood.entity_query_language.entity import entity, inference
         from krrood.entity_query_language.quantify_entity import an
@@ -315,15 +355,15 @@ class C08(Check):
         query = an(entity(views, *[b.cond(c) for c in ir["tree"]["conds"]]))
         fn = {"refinement": refinement, "alternative": alternative, "next_rule": next_rule}
 
-        def emit(block):
+        def conclude(block):
             if block["args"] is not None:
                 Add(views, inference(K[index[id(block)]])(**{f"v{j}": variables[j] for j in block["args"]}))
-            for ch in block["children"]:
-                with fn[ch["kind"]](*[b.cond(c) for c in ch["block"]["conds"]]):
-                    emit(ch["block"])
 
-        with query:
-            emit(ir["tree"])
+        def emit_child(ch):
+            with fn[ch["kind"]](*[b.cond(c) for c in ch["block"]["conds"]]):
+                conclude(ch["block"])
+                for g in ch["block"]["children"]:
+                    emit_child(g)
 
         def decode(inst):
             i = next((k for k, cls in enumerate(K) if type(inst) is cls), None)
@@ -331,26 +371,58 @@ class C08(Check):
                 return ("?", repr(inst))
             return (i, tuple(getattr(inst, f"v{j}")._label for j in blocks[i]["args"]))
 
+        children = ir["tree"]["children"]
+        stages = stage_bounds(ir)
+        late = bool(ir.get("late_add")) and len(stages) > 1
+        for si, (lo, hi) in enumerate(stages):
+            with query:
+                if (si == 0 and not late) or (late and si == len(stages) - 1):
+                    conclude(ir["tree"])
+                for ch in children[lo:hi]:
+                    emit_child(ch)
+            if on_stage is not None:
+                on_stage(query, decode, hi, (not late) or si == len(stages) - 1)
         return query, decode
 
     def evaluate(self, ir, objs, times=2):
-        query, decode = self.build(ir, objs)
+        """returns (runs of the complete tree, [(partial ir, result)] of the evaluations between the blocks)"""
+        between = []
+
+        def on_stage(query, decode, n_children, base_concluded):
+            if ir.get("eval_between") and n_children < len(ir["tree"]["children"]):
+                between.append((partial_ir(ir, n_children, base_concluded), {decode(inst) for inst in query.evaluate()}))
+
+        query, decode = self.build(ir, objs, on_stage)
         runs = []
         for _ in range(times):
             runs.append({decode(inst) for inst in query.evaluate()})
-        return runs
+        return runs, between
 
     def run(self, ir) -> Outcome:
         objs = lang.build_world(ir["world"])
-        feats = shape_features(ir["tree"])
+        feats = ir_features(ir)
         classes = sorted(x for x in feats)
         lower, upper, overridden = self.oracle(ir, objs)
         nontrivial = len({k for k, _ in upper}) >= 2 and overridden
         fb = ",".join(sorted(feats - {f for f in feats if f.startswith("depth")}))
+        if len(stage_bounds(ir)) > 1:
+            classes.append("tree_written_in_several_blocks")
+            if ir.get("late_add"):
+                classes.append("base_conclusion_written_last")
+            if ir.get("eval_between"):
+                classes.append("evaluated_between_blocks")
         try:
-            runs = self.evaluate(ir, objs)
+            runs, between = self.evaluate(ir, objs)
         except Exception as exc:
             return crash(exc, "rule tree", classes=classes, nontrivial=nontrivial, features=feats)
+        for part, got_part in between:
+            if shape_features(part["tree"]) & {"sibling_refinement_shadowing"}:
+                continue
+            lo_p, up_p, _ = self.oracle(part, objs)
+            if (lo_p - got_part) or (got_part - up_p):
+                return fail("wrong_conclusions_of_partial_tree",
+                            f"after {len(part['tree']['children'])} of {len(ir['tree']['children'])} branches: missing={sorted(lo_p - got_part)[:4]} extra={sorted(got_part - up_p)[:4]}",
+                            classes=classes, nontrivial=nontrivial, features=feats, bucket=fb)
         got = runs[0]
         missing, extra = lower - got, got - upper
         if missing or extra:
